@@ -16,6 +16,8 @@ import collections
 import difflib
 import re
 
+from ..worldlib import pylines
+
 IGNORE = "# static analysis: ignore"
 
 
@@ -156,7 +158,7 @@ def eval_equal(module_text, old_expr, new_expr):
 # cause classifiers: signatures computed from the failing input itself
 
 def classify_s1_add_ignores(before, first):
-    lines = before.splitlines()
+    lines = pylines(before)
     L = first["del"][0]
     prev = lines[L - 2] if L >= 2 and L - 2 < len(lines) else ""
     if prev.rstrip().endswith("\\"):
@@ -165,7 +167,7 @@ def classify_s1_add_ignores(before, first):
 
 
 def classify_s1_autofix(before, first):
-    lines = before.splitlines()
+    lines = pylines(before)
     dels = first["del"]
     if first["add"] and dels and dels[0] - 1 < len(lines):
         old_line = lines[dels[0] - 1]
@@ -183,6 +185,22 @@ def classify_s1_autofix(before, first):
                 if isinstance(body, list) and len(body) == 1 and isinstance(body[0], ast.stmt) and body[0].lineno == dels[0] and not isinstance(node, ast.Module):
                     return "deleted-only-statement-of-block"
     return "unclassified"
+
+
+def line_inside_multiline_string(text, lineno, strict_end=True):
+    """Is physical line `lineno` a continuation line of a string literal spanning several lines
+    (so that no comment can be put directly above it)?"""
+    try:
+        tree = ast.parse(text)
+    except SyntaxError:
+        return False
+    for node in ast.walk(tree):
+        if isinstance(node, (ast.Constant, ast.JoinedStr)) and getattr(node, "end_lineno", None) is not None:
+            if isinstance(node, ast.Constant) and not isinstance(node.value, (str, bytes)):
+                continue
+            if node.lineno < lineno <= node.end_lineno:
+                return True
+    return False
 
 
 def line_has_semicolon_stmts(text, lineno):
@@ -300,7 +318,10 @@ class Judge:
                 continue
             # S2
             if mode == "add_ignores" and safe_dump(before[name]) != safe_dump(after[name]):
-                self.add("S2", e["i"], "add_ignores:ast-changed", "add-ignores changed the syntax tree of %s" % name, file=name, before=before[name], after=after[name])
+                sig = "ast-changed"
+                if line_inside_multiline_string(before[name], first["del"][0]):
+                    sig = "comment-inserted-inside-multiline-string"
+                self.add("S2", e["i"], "add_ignores:%s" % sig, "add-ignores changed the syntax tree of %s" % name, file=name, before=before[name], after=after[name])
         self.pending = {"mode": mode, "before": before, "after": after, "applied": applied, "step": e["i"]}
 
     def judge_pending(self, step, P, P2):
@@ -346,10 +367,10 @@ class Judge:
                     lost = sorted((expect - got).elements())
                     gained = sorted((got - expect).elements())
                     sig = "unclassified"
-                    old_lines = old_text.splitlines()
+                    old_lines = pylines(old_text)
                     if L >= 2 and old_lines[L - 2].strip().startswith(IGNORE) and any(k[3] == "unused_ignore" or k[1] == L + 1 for k in gained):
                         sig = "second-comment-displaced-first:two-codes-on-one-line"
-                    if L == 1 or all(l.startswith("#") or not l.strip() for l in old_text.splitlines()[: L - 1]):
+                    if L == 1 or all(l.startswith("#") or not l.strip() for l in pylines(old_text)[: L - 1]):
                         if lost and all(k[3] == code for k in lost) and not gained:
                             sig = "comment-in-header-became-file-level-ignore"
                     self.add("S4", step, "add_ignores:%s" % sig, "%s: other diagnostics changed: lost %s gained %s" % (name, lost[:4], gained[:4]),
@@ -486,7 +507,7 @@ class Judge:
             if self.parse_ok.get(name, True) and safe_dump(after[name]) is None:
                 sig = "unclassified"
                 # find which inserted comment broke it: a comment line right after a backslash
-                lines = after[name].splitlines()
+                lines = pylines(after[name])
                 for k in range(1, len(lines)):
                     if lines[k].strip().startswith(IGNORE) and lines[k - 1].rstrip().endswith("\\"):
                         sig = "comment-inserted-after-backslash-continuation"
@@ -516,7 +537,7 @@ class Judge:
                     by_line[(d["file"], d["line"])].add(d["code"])
                 alternating = False
                 for text in after.values():
-                    ls = [l.strip() for l in text.splitlines()]
+                    ls = [l.strip() for l in pylines(text)]
                     for a, b in zip(ls, ls[1:]):
                         if a.startswith(IGNORE + "[") and b.startswith(IGNORE + "[") and a != b:
                             alternating = True
@@ -530,7 +551,12 @@ class Judge:
             self.add("S5", e["i"], "add_ignores:too-many-iterations", "loop took %d iterations for at most %d (line, code) groups in one file" % (sim.get("iterations"), n0))
         for name in after:
             if name in before and safe_dump(before[name]) != safe_dump(after[name]):
-                self.add("S2", e["i"], "add_ignores:ast-changed", "the add-ignores loop changed the syntax tree of %s" % name, file=name, before=before[name], after=after[name])
+                sig = "ast-changed"
+                after_lines = pylines(after[name])
+                for k, l in enumerate(after_lines):
+                    if l.strip().startswith(IGNORE) and line_inside_multiline_string(after[name], k + 1, strict_end=False):
+                        sig = "comment-inserted-inside-multiline-string"
+                self.add("S2", e["i"], "add_ignores:%s" % sig, "the add-ignores loop changed the syntax tree of %s" % name, file=name, before=before[name], after=after[name])
         self.pending = {"loop": True, "step": e["i"]}
         self.after_loop = True
 
@@ -554,7 +580,7 @@ class Judge:
             if foreign:
                 sig = "unclassified"
                 text = self.texts.get(rec["file"], "")
-                header = all(l.startswith("#") or not l.strip() for l in text.splitlines()[: rec["line"] - 1])
+                header = all(l.startswith("#") or not l.strip() for l in pylines(text)[: rec["line"] - 1])
                 if header and all(d["file"] == rec["file"] and d["code"] == code for d in foreign):
                     sig = "comment-in-header-became-file-level-ignore"
                 self.add("S6", e["i"], "add_ignores:%s" % sig, "deleting %r at %s:%d brings back diagnostics elsewhere: %s" % (
